@@ -70,7 +70,7 @@ def runD (j : Json) : Except String Json := do
       | some k =>
         let nres : Nat := if mm.resolvesAt cfg (c, k) then 1 else 0
         let (mm', r) := mm.lookup cfg (c, k)
-        let fresh := (({ meths := mm.meths, empty := mm.empty } : MMap).lookup cfg (c, k)).2
+        let fresh := (({ meths := mm.meths } : MMap).lookup cfg (c, k)).2
         mm := mm'
         let spec := match c with
           | none => specResolve cfg.H mm.meths k
